@@ -4,7 +4,7 @@
    (wf_cfg: shard WAL on, member-local clamp of ClearEntryLog, propose ids never reused); Refuted.v shows what fails
    for today's variants. Not expressible here (partial claim): timing, timeouts, real network behaviour. *)
 From Coq Require Import List Arith NArith ZArith Bool Lia Permutation.
-From OG Require Import C05.Model C05.Proofs C05.Invariant C05.Theorems C05.Final C05.Trunc C05.TruncProofs C05.Catchup.
+From OG Require Import C05.Model C05.Proofs C05.Invariant C05.Theorems C05.Final C05.Trunc C05.TruncProofs C05.Catchup C05.ReadPath.
 Import ListNotations.
 
 Section C05.
@@ -343,3 +343,35 @@ Proof.
     destruct m as [|[|[|m]]]; vm_compute; try lia.
   - vm_compute. repeat split.
 Qed.
+
+(* ---------------------------------------------------------------- read path after a failure of the master's store (ReadPath.v) *)
+Section C05_readpath.
+  Variable raft_ok : sys -> event -> bool.
+  Hypothesis H_elect : forall s n, raft_ok s (RElect n) = true ->
+    up (nodes s n) = true /\ prefixb (glog s) (elog (nodes s n)) = true.
+  Hypothesis H_repl : forall s m k, raft_ok s (RReplicate m k) = true ->
+    exists l, leader s = Some l /\ m <> l /\ up (nodes s m) = true /\ hcommit (nodes s m) <= k /\
+              k <= length (elog (nodes s l)) /\
+              (prefixb (glog s) (elog (nodes s m)) = true -> length (glog s) <= k).
+  Hypothesis H_commit : forall s k, raft_ok s (RCommit k) = true ->
+    exists l, leader s = Some l /\ length (glog s) <= k /\ k <= length (elog (nodes s l)) /\
+              nn (cfg s) < 2 * count (fun m => prefixb (firstn k (elog (nodes s l))) (elog (nodes s m))) (nn (cfg s)).
+  Hypothesis H_learn : forall s m c, raft_ok s (RLearn m c) = true ->
+    up (nodes s m) = true /\ hcommit (nodes s m) <= c /\ c <= length (glog s) /\
+    firstn c (elog (nodes s m)) = firstn c (glog s).
+
+  (* a master elected (with electRgMaster's rule, any peer order) among the members that have CAUGHT UP answers every
+     key with its latest committed value; today's rule elects among the members that are merely Online:
+     Refuted.master_elected_before_catch_up_refuted *)
+  Theorem master_elected_among_caught_up_answers_latest : forall c es s nm ps' k, wf_cfg c ->
+    run raft_ok (init c) es = Some s -> elect_caught_up s = Some (nm, ps') -> read s nm k = get (ents_store (glog s)) k.
+  Proof. exact (caught_up_master_answers_latest raft_ok H_elect H_repl H_commit H_learn). Qed.
+End C05_readpath.
+Print Assumptions master_elected_among_caught_up_answers_latest.
+
+Example caught_up_master_after_lagmaster_trace :
+  match run raft_ref (init (cfg_repaired 3 2)) lagmaster_trace with
+  | Some s => elect_caught_up s = Some (2, [1; 0]) /\ read s 2 1%N = Some 11%Z
+  | None => False
+  end.
+Proof. vm_compute. split; reflexivity. Qed.
